@@ -157,7 +157,7 @@ def eval_case(kind, data):
     res = new_result()
     outcomes = set()
     for fam, spec0 in data["specs"]:
-        for expect, variant in ((True, "plain"), (False, "plain"), (False, "graph-then-mirror"), (False, "mirror-first"), (True, "graph-then-mirror")):
+        for expect, variant in ((True, "plain"), (False, "plain"), (False, "graph-then-mirror"), (False, "mirror-first"), (True, "graph-then-mirror"), (True, "regenerate"), (False, "regenerate")):
             spec = to_sz(spec0) if expect else spec0
             text = R.print_spec(spec)
             nspec = R.normalize(spec)
@@ -166,7 +166,7 @@ def eval_case(kind, data):
             except Exception:  # noqa
                 res["extra"]["rejected"] = res["extra"].get("rejected", 0) + 1
                 continue
-            if variant != "plain":
+            if variant not in ("plain", "regenerate"):
                 # history: (graph of the molecule,) mirror it, graph of the mirror - must describe the MIRRORED molecule
                 if len(nspec["elements"]) < 2:
                     continue
@@ -181,6 +181,10 @@ def eval_case(kind, data):
                     continue
             try:
                 sag = mol.gen_stochastic_atom_graph(expect_schulz_zimm_distribution=expect)
+                if variant == "regenerate":
+                    # history: the same StochasticAtomGraph object builds its graph a second time
+                    sag.generate()
+                    text = text + " (second generate() on the same StochasticAtomGraph object)"
                 G = sag.graph
             except Exception as e:  # noqa
                 tl = any(e2["k"] == "tok" and any(d.transitions is not None for d in R.token_ref(e2["text"]).descs) for e2 in nspec["elements"])
